@@ -131,3 +131,18 @@ def container_ids(doc):
         if isinstance(v, (dict, list)):
             out.append(id(v))
     return out
+
+
+def is_cyclic(v, _stack=None) -> bool:
+    """True if a container is its own descendant (not a JSON value)."""
+    if not isinstance(v, (dict, list)):
+        return False
+    _stack = _stack if _stack is not None else set()
+    if id(v) in _stack:
+        return True
+    _stack.add(id(v))
+    try:
+        it = v.values() if isinstance(v, dict) else v
+        return any(is_cyclic(x, _stack) for x in it)
+    finally:
+        _stack.discard(id(v))
